@@ -31,6 +31,7 @@ RULE = (
     "decreasing confidences, for AP and APH; (b) random rankings up to 400 results incl. confidence ties, all matching modes; "
     "(c) every Ap/Map built inside scenario runs through the real manager (frame-level and get_scene_result). non-trivial = "
     "ranking with >= 1 result and nGT >= 1; distinct = distinct (source, metric, mode, length class, nGT class, multiset of kinds)"
+    " Later additions: every ranked result's ground truth must be one of the ground truths counted for its frame (manager runs); maps of a mode vs. the thresholds configured for that mode."
 )
 ASSUMPTIONS = [
     "ignored results (label without threshold) still occupy a rank in the precision denominator (the specification's 'ranking results')",
